@@ -446,7 +446,7 @@ def finish(ctx, level_text=None):
     ctx.cov["traces_validated_against_impl"] = ctx.cov["evaluations"]
     ev = {"property_id": ctx.pid, "tier": ctx.tier, "seed": ctx.seed, "level": "proof", "coverage": ctx.cov,
           "assumptions": TRUSTED_BASE, "wall_s": round(time.time() - ctx.t0, 2), "violations": violations,
-          "known_findings_hit": [k["key"] for k, _ in ctx.known][:50], "notes": ctx.notes[-40:]}
+          "known_findings_hit": sorted({k["key"] for k, _ in ctx.known}), "known_finding_inputs": len(ctx.known), "notes": ctx.notes[-40:]}
     os.makedirs(os.path.join(VERIF, "evidence"), exist_ok=True)
     tmp = os.path.join(VERIF, "evidence", ctx.pid + ".json.tmp")
     json.dump(ev, open(tmp, "w"), indent=1)
